@@ -51,13 +51,39 @@ pub fn run_on_fresh_thread(prop: &'static dyn Prop, case: Value, env: Arc<Worker
         Ok(h) => h,
         Err(e) => return RunEnd::HarnessPanic(format!("thread spawn failed: {}", e)),
     };
-    match rx.recv_timeout(Duration::from_secs(RUN_TIMEOUT_S)) {
-        Ok(end) => {
-            let _ = handle.join();
-            end
+    // A run that does not answer within RUN_TIMEOUT_S of wall-clock is a hang if this process was really computing
+    // for (most of) that time. On an oversubscribed machine a starved worker is not hanging: in that case waiting goes
+    // on until the process has burnt RUN_BUSY_S of CPU in this run, or RUN_BLOCKED_S of wall-clock have passed
+    // (a run that blocks without computing).
+    let cpu0 = process_cpu_seconds();
+    let started = std::time::Instant::now();
+    let mut wait = Duration::from_secs(RUN_TIMEOUT_S);
+    loop {
+        match rx.recv_timeout(wait) {
+            Ok(end) => {
+                let _ = handle.join();
+                return end;
+            }
+            Err(_) => {
+                let busy = process_cpu_seconds() - cpu0;
+                if busy >= RUN_BUSY_S as f64 || started.elapsed().as_secs() >= RUN_BLOCKED_S {
+                    return RunEnd::Hang;
+                }
+                wait = Duration::from_secs(5);
+            }
         }
-        Err(_) => RunEnd::Hang,
     }
+}
+
+pub const RUN_BUSY_S: u64 = 30;
+pub const RUN_BLOCKED_S: u64 = 600;
+
+fn process_cpu_seconds() -> f64 {
+    let mut ts = libc::timespec { tv_sec: 0, tv_nsec: 0 };
+    unsafe {
+        libc::clock_gettime(libc::CLOCK_PROCESS_CPUTIME_ID, &mut ts);
+    }
+    ts.tv_sec as f64 + ts.tv_nsec as f64 / 1e9
 }
 
 fn merge(into: &mut BTreeMap<String, u64>, from: &BTreeMap<String, u64>) {
